@@ -289,6 +289,22 @@ class Interp:
         finally:
             self._disarm()
 
+    def op_dualq(self, op):
+        """shadow-price queries on every constraint object that offers dual(); failures are ignored (C14 is not
+        decided here) - the point is that a query must not disturb the cached program"""
+        n = 0
+        for cid in op.get('ids', []):
+            c = self.env.get(cid)
+            if hasattr(c, 'dual'):
+                try:
+                    with warnings.catch_warnings():
+                        warnings.simplefilter('ignore')
+                        c.dual()
+                    n += 1
+                except Exception:
+                    pass
+        return {'queried': n}
+
     def op_gc(self, op):
         junk = [bytearray(64 + 8 * i) for i in range(int(op.get('junk', 0)))]
         del junk
